@@ -1,5 +1,47 @@
-"""C08 — engine `app` (see appcommon.py / apporacles.py and coq/Props/C08.v)."""
+"""C08 — engine `app` (see appcommon.py / apporacles.py and coq/Props/C08.v), plus the key under which a window position
+is stored: engine `codec`, stream KM, against the model's `missed_key` (proved injective in RingTie.v) for indices over the
+whole int64 range — a window longer than any history the app engine can run still has one key per position."""
+import os
 import appcommon, apporacles
+import common as c
+
+N = {"quick": 3000, "thorough": 200000}
+
+
+def window_keys(v, out, hists, cov, a, res):
+    kout = os.path.join(c.WORK, "codec-km-%s-%d" % (a.tier, a.seed))
+    rc, log = c.run_engine("codec", ["-seed", str(a.seed), "-n", str(N[a.tier]), "-only", "KM"], kout, timeout=1200)
+    if rc != 0:
+        v.broken_obligation("codec driver (missed-block keys) failed on the implementation", log[-1500:])
+        return
+    ops = [l.rstrip("\n").split(" ", 1) for l in open(os.path.join(kout, "codec.ops"))]
+    impl = dict(l.rstrip("\n").split(" ", 1) for l in open(os.path.join(kout, "codec.impl")))
+    model = None
+    if res.coq_ok and res.ocaml_ok:
+        rc, err = c.run_model("codec", os.path.join(kout, "codec.ops"), os.path.join(kout, "codec.model"))
+        if rc != 0:
+            v.broken_obligation("extracted model failed to run (missed-block keys)", err[-1500:])
+        else:
+            model = dict(l.rstrip("\n").split(" ", 1) for l in open(os.path.join(kout, "codec.model")))
+    bad = big = 0
+    for ident, op in ops:
+        _, addr, idx = op.split(" ")
+        r = impl.get(ident, "MISSING")
+        big += int(idx) >= 65536
+        if r.startswith("COLLISION") or r.startswith("key-outside") or r.startswith("PANIC"):
+            if not bad:
+                v.violation({"engine": "codec", "stream": "KM", "kind": r.split(" ")[0]},
+                            "window position %s of validator %s: %s — two positions of one window share a stored bit" % (idx, addr, r),
+                            {"op": op, "impl": r, "seed": a.seed, "case": ident})
+            bad += 1
+        elif model is not None and model.get(ident) != r:
+            if not bad:
+                v.broken_obligation("correspondence codec/KM: the key of a window position differs from the model's (proved injective) key",
+                                    {"op": op, "impl": r, "model": model.get(ident), "seed": a.seed, "case": ident})
+            bad += 1
+    cov["window_position_keys_compared"] = len(ops) if model is not None else 0
+    cov["window_position_keys_at_or_above_65536"] = big
+
 
 def run(a):
-    return appcommon.run(a, "C08", set("GM"), apporacles.c08, "downtime window accounting wrong")
+    return appcommon.run(a, "C08", set("GM"), apporacles.c08, "downtime window accounting wrong", extra=window_keys, bins=("app", "codec"))
